@@ -58,6 +58,7 @@ def check(ctx):
     ctx.rule("R3", "in-memory counters move together: append grows buffer and _len on the same paths; every filtered command in the flusher is accounted by skip(1); flush snapshots the buffer before resetting it", floor=5)
     ctx.rule("R4", "FIFO ticket protocol: every queue.append(self) is followed on every normal path by wait_for(front) .. popleft() .. notify_all() under the condition; the front test compares with queue[0]", floor=6)
     ctx.rule("R6", "a read is served from the in-memory tail or from the file opened under the reader's own ticket; per-history state it is served from otherwise (a read cache) is dropped by every method that rewrites the history file", floor=3)
+    ctx.rule("R8", "one definition of 'how many commands are there': the raw append counter (which still counts commands a flush skipped) is read by JsonHistory.__len__ only; every index computation - the memory/disk boundary in particular - starts from len(), never from the counter itself", floor=1)
     ctx.rule("R7", "SQLite backend: a command is left out as a repeat only when its recorded text equals the recorded text of the previous entry - the comparison, the stored text and the remembered text are one expression", floor=3)
     ctx.rule("R5", "one history entry per executed command: every exit of BaseShell.default after run_compiled_code passes _append_history exactly once", floor=2)
 
@@ -184,8 +185,8 @@ def check(ctx):
     snap = any(any(unparse(a) == "tuple(self.buffer)" for a in c.args) for n in mk for c in calls_in(n.ast) if call_name(c) == "JsonHistoryFlusher")
     ok = bool(mk) and bool(rs) and snap and all(fcfg.dominated(r, lambda m: m in mk) for r in rs)
     ctx.ob("R3", f"{HJ}:JsonHistory.flush", "the flusher receives a snapshot (tuple) of the buffer, taken before the buffer is reset", ok, key="flush|snapshot")
-    ln_ = hj.func("JsonHistory.__len__")
-    ok = any(isinstance(n, ast.Return) and unparse(n.value) == "self._len - self._skipped" for n in walk_local(ln_))
+    ln_ = flat(ctx, hj.func("JsonHistory.__len__"), 2)
+    ok = any(isinstance(n, ast.Return) and n.value is not None and unparse(n.value) == "self._len - self._skipped" for n in walk_local(ln_))
     ctx.ob("R3", f"{HJ}:JsonHistory.__len__", "len() = appended - skipped", ok, key="len|formula")
     du = flat(ctx, hj.func("JsonHistoryFlusher.dump"), depth=2, skip=("skip",))
     dcfg = CFG(du)
@@ -317,6 +318,7 @@ def check(ctx):
 
     _read_provenance(ctx)
     _sqlite_dedup(ctx)
+    _raw_counter_private(ctx)
 
 
 def _sqlite_dedup(ctx):
@@ -458,6 +460,32 @@ def _read_provenance(ctx):
                 ok = all(cfg.dominated(w, lambda m: m in inval) for w in wr) or cfg.must_pass(wr, lambda m: m in inval, exits=("exit",))[0]
             ctx.ob("R6", f"{HJ}:{q}", f"rewrites a history file and drops the read cache `{a}` (served by `{short(rs_[0], 40)}`) on every normal path", ok, key=f"{q}|read-cache-not-dropped|{a}", where=loc(fn))
 
+
+
+def _raw_counter_private(ctx):
+    """JsonHistory keeps `_len` (appended) and `_skipped` (dropped by flushes under $HISTCONTROL); len() is their
+    difference and the file holds exactly len() - len(buffer) commands.  A second site that splits an index between the
+    buffer and the file from `_len` alone is off by the skip count as soon as a flush has skipped something."""
+    hm = ctx.repo.module(HJ)
+    lenraw = hm.func("JsonHistory.__len__", raw=True)
+    helpers = {"JsonHistory." + c.func.attr for c in calls_in(lenraw) if isinstance(c.func, ast.Attribute) and unparse(c.func.value) == "self" and hm.has("JsonHistory." + c.func.attr)}
+    allowed = {"JsonHistory.__len__"} | helpers
+    counters = set()
+    for q_ in allowed:
+        f_ = hm.func(q_, raw=True)
+        counters |= {a.attr for r in walk_local(f_) if isinstance(r, ast.Return) and r.value is not None for a in ast.walk(r.value) if isinstance(a, ast.Attribute) and isinstance(a.value, ast.Name) and a.value.id == "self" and not isinstance(parent(a), ast.Call)}
+    if not counters:
+        raise AnalysisError(f"{HJ}:JsonHistory.__len__ is not computed from counters of the history object")
+    n = 0
+    for q, fn in hm.functions():
+        for a in walk_local(fn) if True else []:
+            if isinstance(a, ast.Attribute) and a.attr in counters and isinstance(a.ctx, ast.Load):
+                p_ = parent(a)
+                if isinstance(p_, ast.AugAssign) and p_.target is a:
+                    continue
+                n += 1
+                ok = q in allowed
+                ctx.ob("R8", f"{HJ}:{q}", f"`{short(stmt_of(a), 60)}`: the raw counter `{a.attr}` is read only to compute len()", ok, key=f"{q}|raw-counter-read|{a.attr}", where=loc(a))
 
 META = {
     "technique": "static analysis: format-string layout arithmetic (string.Formatter) against writer/reader constants, literal-length vs offset-increment pairing, CFG must-pass-through for counters, the ticket protocol and the history append",
